@@ -157,6 +157,16 @@ def make_metadata(kvs):
   return md
 
 
+def client_md_order(kvs):
+  """The order in which the client library serialises a vz.Metadata built from `kvs`: the root namespace first, then
+  the namespaces in order of first use; keys in order of insertion."""
+  order = ['']
+  for ns, _, _ in kvs:
+    if ns not in order:
+      order.append(ns)
+  return [kv for ns in order for kv in kvs if kv[0] == ns]
+
+
 def make_config(spec):
   sc = vz.StudyConfig()
   sc.search_space.root.add_float_param('x', 0.0, 1000.0 + spec)
@@ -418,7 +428,7 @@ class Gen:
       return {'c': op, 'count': cnt, 'alg': self.alg(cnt, by_state)}
     if op == 'request':
       self.tok[0] += 1
-      return {'c': op, 'params': self.tok[0], 'md': self.kvs() if r.random() < 0.3 else []}
+      return {'c': op, 'params': self.tok[0], 'md': client_md_order(self.kvs()) if r.random() < 0.3 else []}
     if op == 'add_trial':
       self.tok[0] += 1
       return {'c': op, 'params': self.tok[0], 'final': [self.tok[0], True] if r.random() < 0.35 else None, 'inSpace': r.random() < 0.9}
@@ -617,20 +627,26 @@ def stage(c, prop, backends=('ram', 'sqlmem')):
           raise core.InfraError('client driver: %s' % m)
     models[be] = models[key]
 
-  items = [(p, be) for p in progs for be in backends]
-  results = evaluate(c, items, preds)
-  reported = set()
-  for (prog, be), (real, fails) in zip(items, results):
-    pi = next(i for i, p in enumerate(progs) if p is prog)
-    d = compare(prog, real, models[be][pi])
-    fails = list(fails)
+  items = [(pi, be) for pi in range(len(progs)) for be in backends]
+  results = evaluate(c, [(progs[pi], be) for pi, be in items], preds)
+  all_fails = []
+  broken = []
+  for k, ((pi, be), (real, fails)) in enumerate(zip(items, results)):
+    d = compare(progs[pi], real, models[be][pi])
+    all_fails.append(list(fails))
     if d is not None:
       i, what, a, b = d
-      c.tie_break('client model vs real client library (%s, %s)' % (be, what), {'program': prog[:i + 1], 'step': i, 'backend': be}, a, b)
-      # the tie broke on this program: judge it with EVERY predicate, so that a concrete failing input is reported
-      (_, extra), = evaluate(c, [(prog, be)], ALL_PREDICATES)
-      fails = sorted(set(fails) | set(extra))
-    for (i, p) in fails:
+      c.tie_break('client model vs real client library (%s, %s)' % (be, what), {'program': progs[pi][:i + 1], 'step': i, 'backend': be}, a, b)
+      broken.append(k)
+  if broken and set(preds) != set(ALL_PREDICATES):
+    # the tie broke on these programs: judge them with EVERY predicate, so that a concrete failing input is reported
+    extra = evaluate(c, [(progs[items[k][0]], items[k][1]) for k in broken[:40]], ALL_PREDICATES)
+    for k, (_, f) in zip(broken[:40], extra):
+      all_fails[k] = sorted(set(all_fails[k]) | set(f))
+  reported = set()
+  for k, ((pi, be), (real, _)) in enumerate(zip(items, results)):
+    prog = progs[pi]
+    for (i, p) in all_fails[k]:
       key, what = KEYS_WHAT[p]
       if (key, be) in reported:
         continue
